@@ -163,13 +163,9 @@ theorem spWords_foldl : ∀ (cs : List Bytes) (v : Bytes),
 /-- The handler's value and the strict decoder's value of a spelled field consist of the same words. -/
 theorem spWords_hval_sval (f : FLine) (hf : wfFLine f = true) : spWords (hval f) = spWords (sval f) := by
   have F := wfFLine_facts f hf
-  have hp : ∀ x : UInt8, isOWS x = true → x = 32 ∨ x = 9 := by
-    intro x hx; simpa [isOWS] using hx
-  have hp32 : ∀ x : UInt8, (x == 32) = true → x = 32 ∨ x = 9 := by
-    intro x hx; left; simpa using hx
-  unfold hval sval rOWS
-  rw [spWords_rstrip _ hp, spWords_dropWhile _ hp32, spWords_app _ _ (unfoldH_head f.conts F.conts),
-    spWords_dropWhile _ hp, spWords_unfoldH f.conts F.conts, spWords_foldl, spWords_trimOWS]
+  unfold hval sval
+  rw [spWords_trimOWS, spWords_app _ _ (unfoldH_head f.conts F.conts), spWords_unfoldH f.conts F.conts,
+    spWords_foldl, spWords_trimOWS]
 
 /-- … so they are equal modulo the value canonicalisation of the per-case check. -/
 theorem canon_hval_sval (f : FLine) (hf : wfFLine f = true) : canon (hval f) = canon (sval f) := by
@@ -306,53 +302,14 @@ theorem sval_eq_hval_of_nb (f : FLine) (hf : wfFLine f = true) (hnb : ∀ c ∈ 
   rw [← hz] at hE
   exact eq_of_spWords_nb _ _ hE hnb (spWords_hval_sval f hf).symm
 
-/-- the handler's value never ends in a blank and never starts with SP; it starts with HTAB only in the obs-fold
-corner "first line blank, continuation line starts with SPs followed by HTAB" -/
-def noLeadTab (f : FLine) : Bool := (hval f).head? != some 9
-
-theorem noBlankEnds_hval (f : FLine) (h : noLeadTab f = true) : noBlankEnds (hval f) = true := by
-  have hlast : ∀ c, (hval f).getLast? = some c → c ≠ 32 ∧ c ≠ 9 := by
-    intro c hc
-    unfold hval rOWS at hc
-    rw [List.getLast?_reverse] at hc
-    have := head_dropWhile_not isOWS _ c hc
-    simpa [isOWS] using this
-  have hhead : ∀ c, (hval f).head? = some c → c ≠ 32 ∧ c ≠ 9 := by
-    intro c hc
-    refine ⟨?_, ?_⟩
-    · obtain ⟨s, hs, _⟩ := rstrip_split isOWS ((f.raw.dropWhile isOWS ++ unfoldH f.conts).dropWhile (· == 32))
-      have e : hval f = (((f.raw.dropWhile isOWS ++ unfoldH f.conts).dropWhile (· == 32)).reverse.dropWhile isOWS).reverse := rfl
-      rw [← e] at hs
-      cases hv : hval f with
-      | nil => rw [hv] at hc; simp at hc
-      | cons a t =>
-        rw [hv] at hc hs
-        simp at hc; subst hc
-        have := head_dropWhile_not (· == 32) _ a (by rw [hs]; rfl)
-        simpa using this
-    · intro h9; subst h9
-      simp [noLeadTab, hc] at h
-  unfold noBlankEnds
-  cases hh : (hval f).head? with
-  | none =>
-    cases hl : (hval f).getLast? with
-    | none => rfl
-    | some c => have := hlast c hl; simp [this.1, this.2]
-  | some a =>
-    have ha := hhead a hh
-    cases hl : (hval f).getLast? with
-    | none => simp [ha.1, ha.2]
-    | some c => have := hlast c hl; simp [this.1, this.2, ha.1, ha.2]
-
-/-- Outside that corner, a value that the strict decoder returns without blanks is handed to the handler unchanged. -/
-theorem hval_eq_sval_of_nb (f : FLine) (hf : wfFLine f = true) (hlt : noLeadTab f = true)
+/-- A value that the strict decoder returns without blanks is handed to the handler unchanged. -/
+theorem hval_eq_sval_of_nb (f : FLine) (hf : wfFLine f = true)
     (hnb : ∀ c ∈ sval f, c ≠ 32 ∧ c ≠ 9) : hval f = sval f :=
-  eq_of_spWords_nb _ _ (noBlankEnds_hval f hlt) hnb (spWords_hval_sval f hf)
+  eq_of_spWords_nb _ _ (noBlankEnds_trimOWS _) hnb (spWords_hval_sval f hf)
 
 /-- without continuation lines both readings are `trimOWS raw` -/
 theorem hval_nofold (k raw : Bytes) : hval { name := k, raw := raw, conts := [] } = trimOWS raw := by
-  simp only [hval, unfoldH, List.append_nil, dropWhile32_dropWhileOWS]
-  rfl
+  simp [hval, unfoldH]
 
 theorem sval_nofold (k raw : Bytes) : sval { name := k, raw := raw, conts := [] } = trimOWS raw := rfl
 
